@@ -475,3 +475,99 @@ def check_tabular(ctx, tr):
 RUNNERS["tabular"] = lambda ctx, which, K, start: (lambda tr: (check_tabular(ctx, tr), tr)[1])(run_tabular(ctx, which, K, start))
 for _w in ("q_learning", "sarsa", "double_q_learning", "monte_carlo", "dynaq"):
     EXTRA_C01.append(("tabular", _w))
+
+
+# ------------------------------------------------------------------------------------------------ schedulers (contract stub for train_st)
+class TaskSetStub:
+    """task_set with persistent per-task recording environments."""
+
+    def __init__(self, world, n_tasks):
+        self.envs_ = [W.RecEnv(world, discrete=False, symbolic_rewards=False) for _ in range(n_tasks)]
+
+    def get_task(self, task_id):
+        return self.envs_[int(task_id)]
+
+    def __len__(self):
+        return len(self.envs_)
+
+
+class MTBufferStub:
+    def __init__(self, world):
+        self.w = world
+        self.selected = []
+
+    def select_task(self, task_id):
+        self.selected.append(int(task_id))
+
+
+def train_st_contract(world):
+    """Contract of a single-task routine (verified for the real routines by the loop checks above): run until the
+    step counter reaches total_timesteps or total_episodes episodes have finished; report start + executed."""
+    from collections import namedtuple
+    R = namedtuple("STResult", ["global_step"])
+
+    def train_st(env=None, *a, total_timesteps=None, total_episodes=None, global_step=0, **kw):
+        step = global_step
+        eps = 0
+        env.reset(seed=kw.get("seed"))
+        n = 0
+        while step < total_timesteps:
+            _, _, term, trunc, _ = env.step(np.zeros(1, dtype=np.float32))
+            step += 1
+            n += 1
+            if term or trunc:
+                eps += 1
+                if total_episodes is not None and eps >= total_episodes:
+                    break
+                env.reset()
+        world.emit("train_st", 0, start=global_step, executed=n, total_timesteps=total_timesteps, total_episodes=total_episodes)
+        return R(step)
+    return train_st
+
+
+def run_uts(ctx, total, episodes_per_task, n_tasks=2):
+    from rl_blox.algorithm import uniform_task_sampling as mod
+    w = W.World()
+    ts = TaskSetStub(w, n_tasks)
+
+    class JR:
+        def key(self, s):
+            return ("key", s)
+
+        def split(self, k, num=2):
+            return [("split", k, i) for i in range(num)]
+
+        def choice(self, k, n):
+            return int(sym_int("task", 0, int(n) - 1))
+
+    class J:
+        random = JR()
+    with overlay(mod, jax=J(), tqdm=lambda *a, **k: W.Bar()):
+        res = mod.train_uts(ts, train_st_contract(w), total_timesteps=total, episodes_per_task=episodes_per_task, seed=0, progress_bar=False)
+    return w, ts, res
+
+
+def run_smt(ctx, b1, b2, interval, n_tasks=2, K=1):
+    from rl_blox.algorithm import smt as mod
+    w = W.World()
+    ts = TaskSetStub(w, n_tasks)
+    buf = MTBufferStub(w)
+
+    class Rng:
+        def choice(self, n, size=None, replace=False):
+            # arbitrary K distinct task ids
+            first = int(sym_int("pool0", 0, int(n) - 1))
+            return np.asarray([first] if size == 1 else [first] + [t for t in range(int(n)) if t != first][: size - 1])
+
+    class NpShim:
+        class random:
+            @staticmethod
+            def default_rng(seed):
+                return Rng()
+
+        def __getattr__(self, k):
+            return getattr(np, k)
+    with overlay(mod, np=NpShim(), tqdm=lambda *a, **k: W.Bar()):
+        res = mod.train_smt(ts, train_st_contract(w), buf, b1=b1, b2=b2, solved_threshold=sym_real("solved_threshold"), unsolvable_threshold=sym_real("unsolvable_threshold"),
+                            scheduling_interval=interval, kappa=0.8, K=K, n_average=2, learning_starts=0, seed=0, logger=None, progress_bar=False)
+    return w, ts, buf, res
